@@ -11,7 +11,8 @@
    (an equivocator); [supermajority] = 3 * spec_count > 2 * |authority set|.
    [handle_commit_prefix] / [verify_commit_prefix] = the pinned tree before the repairs. *)
 From Coq Require Import List NArith Bool.
-From C18 Require Import Model Proofs.
+From Coq Require Import Permutation.
+From C18 Require Import Model Proofs ProofsMore.
 Import ListNotations.
 Local Open Scope N_scope.
 
@@ -127,3 +128,128 @@ Example C18_nonvacuous :
   /\ spec_count w_chain w_auths w_good = 3
   /\ supermajority w_chain w_auths w_good = true.
 Proof. destruct good_witness as [H1 [H2 [H3 _]]]. auto. Qed.
+
+(* ======================= second round (audit) =======================
+   The specification read in words.  [signed_by m k v]: the commit lists a precommit for vote v
+   carrying key k whose signature verifies for (precommit, v, commit round, current set id);
+   [backs_target]: k signed a precommit for the target or a descendant ("precommitted to the target
+   or its descendants"); [equivocates]: k signed two different precommits; [backer] = current
+   authority that does one of the two.  [spec_count] is the size of the SET of backers. *)
+Theorem C18_spec_in_words : forall c auths m,
+  (forall k, supporter c auths m k = true <-> In k auths /\ backs_target c m k)
+  /\ (forall k, equivocator auths m k = true <-> In k auths /\ equivocates m k)
+  /\ (exists ks, NoDup ks /\ (forall k, In k ks <-> backer c auths m k)
+                 /\ spec_count c auths m = N.of_nat (length ks))
+  /\ (forall ks, NoDup ks -> (forall k, In k ks -> backer c auths m k) ->
+                 N.of_nat (length ks) <= spec_count c auths m).
+Proof.
+  intros c auths m. split; [exact (supporter_iff c auths m)|]. split; [exact (equivocator_iff auths m)|].
+  split; [exact (spec_count_witness c auths m) | exact (spec_count_max c auths m)].
+Qed.
+Print Assumptions C18_spec_in_words.
+
+(* "finalises its target only if more than two thirds of the current authority set precommitted":
+   an accepted commit exhibits a duplicate-free list of backers, strictly longer than two thirds
+   of the authority list *)
+Theorem C18_accept_backers : forall c auths setid has hf m eff,
+  handle_commit c auths setid has hf m = (HAccepted, eff) ->
+  exists ks, NoDup ks /\ (forall k, In k ks -> backer c auths m k)
+             /\ 2 * N.of_nat (length auths) < 3 * N.of_nat (length ks).
+Proof. exact accept_backers. Qed.
+Print Assumptions C18_accept_backers.
+
+(* "any commit that falls short is rejected": ErrMinVotesNotMet is returned exactly for a commit
+   that passes every structural check and has no supermajority; then no duplicate-free list of
+   backers exceeds two thirds, and nothing is finalised, stored or tracked *)
+Theorem C18_minvotes_iff : forall c auths setid thr hf m,
+  verify_commit c auths setid thr hf m = RErr EMinVotes <->
+  prechecks c setid hf m = ROk tt /\
+  (exists st, loop c auths (cm_vote m) l0 (entries m) = ROk st) /\
+  spec_count c auths m <= thr.
+Proof. exact verify_commit_minvotes. Qed.
+Print Assumptions C18_minvotes_iff.
+
+Theorem C18_minvotes_falls_short : forall c auths setid has hf m eff,
+  handle_commit c auths setid has hf m = (HRejected EMinVotes, eff) ->
+  supermajority c auths m = false /\ eff = no_effect
+  /\ forall ks, NoDup ks -> (forall k, In k ks -> backer c auths m k) ->
+                3 * N.of_nat (length ks) <= 2 * N.of_nat (length auths).
+Proof.
+  intros c auths setid has hf m eff H. destruct (handle_minvotes _ _ _ _ _ _ _ H) as [S E].
+  split; [exact S|]. split; [exact E|]. intros ks. exact (minvotes_no_backers _ _ _ _ _ _ _ ks H).
+Qed.
+Print Assumptions C18_minvotes_falls_short.
+
+(* the counting loop fails the whole message exactly when some entry is correctly signed by a
+   current authority for a block whose ancestry is decidable but whose header is missing or
+   carries another number than the precommit ([entry_fault]) *)
+Theorem C18_loop_completes_iff : forall c auths tgt es st,
+  (exists st', loop c auths tgt st es = ROk st') <->
+  forallb (fun e => negb (entry_fault c auths tgt e)) es = true.
+Proof. intros c auths tgt es st. exact (loop_ok_iff c auths tgt es st). Qed.
+Print Assumptions C18_loop_completes_iff.
+
+(* acceptance does not depend on the order of the (precommit, auth data) pairs *)
+Theorem C18_accept_order_free : forall c auths setid has hf round sid v es es',
+  Permutation es es' ->
+  ((exists eff, handle_commit c auths setid has hf (commit_of round sid v es) = (HAccepted, eff)) <->
+   (exists eff, handle_commit c auths setid has hf (commit_of round sid v es') = (HAccepted, eff))).
+Proof. exact accept_order_free. Qed.
+Print Assumptions C18_accept_order_free.
+
+(* entries with an invalid signature (wrong round, set, stage, number, key, forged bytes) or from a
+   non-authority have no influence whatsoever: removing them changes neither result nor effects *)
+Theorem C18_unverified_irrelevant : forall c auths setid has hf m,
+  length (cm_precommits m) = length (cm_authdata m) ->
+  handle_commit c auths setid has hf (strip auths m) = handle_commit c auths setid has hf m.
+Proof. exact handle_commit_strip. Qed.
+Print Assumptions C18_unverified_irrelevant.
+
+(* handleCommitMessage with failing collaborators ([handle_commit_f], the model the driver
+   replays): without failures it is [handle_commit]; with any combination of failures every
+   SetFinalisedHash CALL is for the target of a supermajority commit that passed every check,
+   SetPrecommits is called only after SetFinalisedHash succeeded, a nil return finalised exactly
+   the target (or the round was finalised before), and [prop_holds] holds. *)
+Theorem C18_faults_conservative : forall c auths setid has hf m,
+  handle_commit_f no_faults c auths setid has hf m =
+  (FRes (fst (handle_commit c auths setid has hf m)), snd (handle_commit c auths setid has hf m)).
+Proof. exact handle_commit_f_no_faults. Qed.
+Print Assumptions C18_faults_conservative.
+
+Theorem C18_faults_sound : forall fl c auths setid has hf m r eff,
+  handle_commit_f fl c auths setid has hf m = (r, eff) ->
+  (forall x, finalised eff = Some x ->
+     x = (v_hash (cm_vote m), cm_round m, setid) /\ has = false
+     /\ verify_commit c auths setid (threshold auths) hf m = ROk tt
+     /\ supermajority c auths m = true)
+  /\ (forall y, stored eff = Some y ->
+        f_fin_err fl = false /\ finalised eff = Some (v_hash (cm_vote m), cm_round m, setid)
+        /\ y = (cm_round m, cm_setid m))
+  /\ (freturns_nil r = true ->
+        (has = true /\ finalised eff = None) \/
+        (has = false /\ supermajority c auths m = true
+         /\ finalised eff = Some (v_hash (cm_vote m), cm_round m, setid)))
+  /\ prop_holds c auths setid m has (freturns_nil r) (fin_calls eff) = true.
+Proof.
+  intros fl c auths setid has hf m r eff H.
+  split; [intros x; exact (handle_commit_f_call _ _ _ _ _ _ _ _ _ x H)|].
+  split; [intros y; exact (handle_commit_f_stored _ _ _ _ _ _ _ _ _ y H)|].
+  split; [exact (handle_commit_f_nil _ _ _ _ _ _ _ _ _ H) | exact (handle_commit_f_prop _ _ _ _ _ _ _ _ _ H)].
+Qed.
+Print Assumptions C18_faults_sound.
+
+(* non-vacuity of the second-round definitions: a hidden header rejects the whole message
+   (ENoHeader, entry_fault); a failing SetFinalisedHash leaves one call and no SetPrecommits; a
+   voter list that repeats an authority raises n, not the number of backers; stripping removes
+   exactly the non-authority entry of the accepted witness *)
+Example C18_nonvacuous_more :
+  handle_commit (tree_chain_h 0 [0; 1; 1] None (Some 2)) w_auths 0 false 0 w_good
+    = (HRejected ENoHeader, no_effect)
+  /\ handle_commit_f (mkFaults false false true false) w_chain w_auths 0 false 0 w_good
+     = (FFinErr, mkEff (Some (1, 1, 0)) None false)
+  /\ handle_commit w_chain (w_auths ++ [0]) 0 false 0 w_good = (HRejected EMinVotes, no_effect)
+  /\ length (cm_precommits (strip w_auths w_good)) = 4%nat.
+Proof.
+  destruct nohdr_witness as [H1 _]. destruct repeated_voter_witness as [_ [_ H3]].
+  destruct strip_witness as [H4 _]. split; [exact H1|]. split; [exact fin_err_witness|]. auto.
+Qed.
